@@ -2,13 +2,20 @@
 (* C08: each record is one built-in invoked on an argument tuple (bound in  *)
 (* the scope as a1..an), positionally  f(a1, .., an)  and - where the       *)
 (* standard names the parameters - by name  f(p1: a1, .., pn: an).          *)
-(* Bif!BifApply decides the value; both forms must match it.                *)
+(* Bif!BifApply decides the value; both forms must match it.  Records of    *)
+(* the regular-expression family carry the syntax tree of their pattern    *)
+(* (`re`); Bif!BifApplyRe (Regex.tla) decides those.                        *)
 EXTENDS Bif, TLC, Json, IOUtils
 Recs == ndJsonDeserialize(IOEnv.TRACE)
+RECURSIVE TrimL(_), TrimR(_)
+TrimL(s) == IF s # <<>> /\ s[1] \in {32, 9, 10, 13} THEN TrimL(Tail(s)) ELSE s
+TrimR(s) == IF s # <<>> /\ s[Len(s)] \in {32, 9, 10, 13} THEN TrimR(SubSeq(s, 1, Len(s) - 1)) ELSE s
+TrimBlanks(s) == TrimR(TrimL(s))
 Verdict(r) ==
-  LET want == BifApply(r.fn, r.args) IN
+  LET want == IF "re" \in DOMAIN r THEN BifApplyRe(r.fn, r.args, r.re) ELSE BifApply(r.fn, r.args) IN
   IF r.pos.k = "panic" \/ ("named" \in DOMAIN r /\ r.named.k = "panic") THEN "the built-in panicked"
   ELSE IF IsU(want) THEN (IF "named" \in DOMAIN r /\ r.named # r.pos THEN "named and positional invocation differ" ELSE "unspec")
+  ELSE IF r.fn = "replace" /\ want.k = "str" /\ r.pos.k = "str" /\ r.pos.cp # want.cp /\ r.pos.cp = TrimBlanks(want.cp) THEN "replace: the result lost its leading or trailing blanks"
   ELSE IF ~Match(want, r.pos) THEN "the positional invocation does not return the specified value"
   ELSE IF "named" \in DOMAIN r /\ ~Match(want, r.named) THEN "the named invocation does not return the specified value"
   ELSE "ok"
